@@ -16,7 +16,7 @@ META = {
                    'the right-hand side is y^T on both branches of the condition-number test, the result is the (transposed) solver answer, hence z G = y by the '
                    'solve contract. ARR: at every micro-step of both half-sweeps micro_matrix^T vec(core_i) equals the predictions of the CURRENT coefficient train on all '
                    'snapshots (index-loop contraction with the transformed data tensor), the lstsq right-hand side is row k of y, the sweep schedule, ranks of the '
-                   'guess never grow, the guess object is not modified. mandy_cm / mandy_fm are also run with complex-valued y (the formula has no conjugation).',
+                   'guess never grow, the guess object is not modified. mandy_cm / mandy_fm are also run with complex-valued y (the formula has no conjugation). mandy_kb with basis lists of unequal size.',
     'bounds': {'quick': 'state dimension 1-2, snapshots 1-3, 1-2 outputs, bases of 2-3 functions (monomials, sin, cos), ARR: 2-3 modes, guess ranks {1,2}, repeats 1-2',
                'thorough': 'more bases / 3 outputs'},
     'outside': ['residual monotone in repeats: each lstsq minimises over a set containing the previous iterate (consequence of the decided consistency + the lstsq contract); '
